@@ -184,7 +184,7 @@ func stateIneqs(st *State) []*linForm {
 					out = append(out, l1, l2)
 				}
 			}
-			if !numericTerm(f.A) && !numericTerm(f.B) {
+			if !numericTerm(f.A) && !numericTerm(f.B) && !(intVar(f.A) && intVar(f.B)) {
 				continue
 			}
 			a, b := linOf(f.A), linOf(f.B)
@@ -360,4 +360,13 @@ func lenNonNeg(info *types.Info, extra map[string]bool) func(string, *Term) bool
 		}
 		return false
 	}
+}
+
+// intVar: a variable (or field) of integer type.
+func intVar(t *Term) bool {
+	if t == nil || (t.K != 'v' && t.K != 'f') || t.Obj == nil {
+		return false
+	}
+	b, ok := t.Obj.Type().Underlying().(*types.Basic)
+	return ok && b.Info()&types.IsInteger != 0
 }
